@@ -3,6 +3,7 @@ import collections
 import json
 import os
 import shutil
+import urllib.parse
 
 import numpy as np
 from hypothesis import strategies as st
@@ -58,6 +59,10 @@ def dataset_cases(draw):
     c["kind"] = kind
     c["gzip"] = draw(st.booleans())
     c["form"] = draw(st.sampled_from(URL_FORMS))
+    # directory names that must be percent-encoded in the URL (the standard
+    # spelling of such an address)
+    c["dirname"] = draw(st.sampled_from(["ds", "ds", "ds", "my data",
+                                         "d\u00e9p\u00f4t", "50%"]))
     if kind == "foreign":
         c["index_enc"] = c["data_enc"] = "raw"
     return c
@@ -66,7 +71,7 @@ def dataset_cases(draw):
 def build_dataset(case, root):
     """Writes the dataset under root/ds; returns the ground truth
     {position: bytes} of the stored chunks."""
-    d = os.path.join(root, "ds")
+    d = os.path.join(root, case.get("dirname", "ds"))
     os.makedirs(d)
     order = [tuple(p) for p in case["order"]]
     truth = {p: sc.payload(case["seed"], p) for p in order}
@@ -140,7 +145,8 @@ def check_case(ctx, case):
         size = sc.scale_info(case)["size"]
         with httpd.StaticServer(root, rewrite=(case["kind"] == "plain_deep")
                                 ) as srv:
-            url = spell(srv.url + "ds", case["form"])
+            url = spell(srv.url + urllib.parse.quote(case.get("dirname", "ds")),
+                        case["form"])
             try:
                 acc = accessor.get_accessor_for_url(url)
             except Exception as exc:
@@ -247,7 +253,8 @@ def check_fault(ctx, case):
         cc = sc.coords_of(pos, case["cs"], size)
         with httpd.StaticServer(root, rewrite=(case["kind"] == "plain_deep")
                                 ) as srv:
-            url = spell(srv.url + "ds", case["form"])
+            url = spell(srv.url + urllib.parse.quote(case.get("dirname", "ds")),
+                        case["form"])
 
             def operation():
                 acc = accessor.get_accessor_for_url(url)
